@@ -11,13 +11,13 @@ MANIFEST = dict(
     note="trusted: TLC, sqlite3 savepoint semantics as the reference database; SQLite only (PostgreSQL/MariaDB not executable); bounded handles/rows/depth; out-of-order savepoint misuse recorded as known finding",
     technique="TLA+ spec (ConnTxn.tla) + TLC exhaustive model checking; spec->code replay of every state-graph edge into a real Connection")
 INVS = ["NothingLost", "FlagsConsistent", "PointerSane", "RefAgree", "RefAgreeLive_InOrder", "NestedHasSavepoint_InOrder"]
-PROPS = ["CommittedOnlyByCommit", "ErrorsDontAct", "EndedDontAct"]
+PROPS = ["CommittedOnlyByCommit", "ErrorsDontAct", "EndedDontAct", "CtxEndedRefuses", "CtxExitExcNeverPublishes"]
 FOOTPRINT = ["Begin", "BeginNested", "Exec", "ConnCommit", "ConnRollback", "H_commit", "H_rollback", "H_close", "Close"]
 
 
 def main(chk):
     rng = random.Random(chk.seed)
-    consts = dict(MaxH=4, MaxRows=3, MaxDepth=10) if chk.quick else dict(MaxH=5, MaxRows=3, MaxDepth=12)
+    consts = dict(MaxH=4, MaxRows=3, MaxDepth=10, Ctx=False) if chk.quick else dict(MaxH=5, MaxRows=3, MaxDepth=12, Ctx=False)
     maxlen = consts["MaxDepth"]
     # 1. model check + edge dump in one single-worker run
     cfgt = tlc.cfg(constants=consts, init="InitEmit", invariants=INVS, properties=PROPS, view="View",
@@ -48,17 +48,40 @@ def main(chk):
         chk.violation({"spec": "ConnTxn", "action": m["act"]["a"] if isinstance(m["act"], dict) else m["act"], "kind": "conformance",
                        "ret": m["act"].get("ret") if isinstance(m["act"], dict) else None},
                       "real Connection diverges from ConnTxn.tla: " + m["mismatch"], m)
+    # 4. context-manager graph (with handle: ... / use after the block's transaction ended), smaller bounds
+    cconsts = dict(MaxH=3, MaxRows=2, MaxDepth=8, Ctx=True) if chk.quick else dict(MaxH=4, MaxRows=2, MaxDepth=10, Ctx=True)
+    cfgx = tlc.cfg(constants=cconsts, init="InitEmit", invariants=INVS, properties=PROPS, view="View",
+                   action_constraints=["Emit"], constraints=["Depth"])
+    gx = graph.dump("ConnTxn", cfgx, chk.work, timeout=1800)
+    if gx.tlc.violated:
+        chk.violation({"spec": "ConnTxn", "action": "TLC", "invariant": gx.tlc.violated, "cfg": "ctx"},
+                      "TLC: %s violated in ConnTxn.tla (context-manager configuration)" % gx.tlc.violated)
+    covx = {}
+    for e in gx.edges:
+        covx[e[1]["a"]] = covx.get(e[1]["a"], 0) + 1
+    for a in ("WithEnter", "WithExit", "WithExitExc"):
+        if not covx.get(a):
+            chk.machinery("vacuous: action %s never taken" % a)
+    walksx, planx = graph.plan_tours(gx, cconsts["MaxDepth"], rng,
+                                     edge_filter=None)
+    stepsx, mismx = graph.replay(gx, walksx, lambda wid, wd: Driver(wid, wd), chk.work + "/replayx", nproc=16)
+    for m in mismx:
+        chk.violation({"spec": "ConnTxn", "action": m["act"]["a"] if isinstance(m["act"], dict) else m["act"], "kind": "conformance", "cfg": "ctx",
+                       "ret": m["act"].get("ret") if isinstance(m["act"], dict) else None},
+                      "real Connection diverges from ConnTxn.tla (context managers): " + m["mismatch"], m)
+    steps += stepsx
+    cov.update({"ctx:" + k: v for k, v in covx.items()})
     nontriv = sum(1 for e in g.edges if e[1]["a"] in ("H_commit", "H_rollback", "H_close", "ConnCommit", "ConnRollback", "Close")
                   and (g.states[e[0]]["root"] != 0))
     sample = [[g.edges[ei][1]["a"] + ("(%d)" % g.edges[ei][1]["arg"] if g.edges[ei][1]["arg"] else "") + "->" + g.edges[ei][1]["ret"]
                for ei in w] for w in (walks[len(walks) // 2], walks[-1])]
     return chk.finish(
-        dict(states=r.distinct, transitions=r.generated, traces_validated_against_impl=len(walks) + len(extra),
+        dict(states=r.distinct + gx.tlc.distinct, transitions=r.generated + gx.tlc.generated, traces_validated_against_impl=len(walks) + len(extra) + len(walksx), plan_ctx=planx,
              distinct_nontrivial=nontriv, evaluations=steps, samples=sample, plan=plan, depth=r.depth,
              action_coverage=cov, exhaustive=True,
              rule="every labelled edge of the ConnTxn state graph (constants %s) covered by a walk from Init replayed against a real Connection; "
                   "non-trivial = edges that end/commit/rollback a transaction or savepoint while a transaction exists" % consts,
              checker_cmd="tlc ConnTxn.tla (VIEW View, ACTION_CONSTRAINT Emit)"),
         assumptions=["SQLite only (autocommit=False modern mode, NullPool); PostgreSQL/MariaDB not executable here",
-                     "context-manager use is covered by ConnTxnCtx actions only where present in the spec",
+                     "context-manager use (with handle: / __exit__ with and without exception, nested, out-of-band) in a second graph with constants %s" % cconsts,
                      "bounded: <= %d handles, <= %d rows, walks <= %d" % (consts["MaxH"], consts["MaxRows"], maxlen)])
